@@ -320,6 +320,14 @@ class Interp:
                 return Vt("std::ops::ControlFlow", "Continue", a[3][0][1])
             if a[0] == "v" and a[2] in ("Err", "None"):
                 return Vt("std::ops::ControlFlow", "Break", a)
+        if "convert::Into" in callee and callee.endswith("::into") and isinstance(e, dict) and e.get("recv_ty") and e.get("ty"):
+            # `x.into()` is `U::from(x)` (blanket impl): name the From impl it resolves to, local or foreign
+            src_t, dst_t = e["recv_ty"].lstrip("&").strip(), e["ty"]
+            loc = [f for f in F.fns if f["name"] == "from" and (f.get("impl_trait") or "").endswith("convert::From")
+                   and (f.get("self_ty") or "") == dst_t and f.get("params") and f["params"][0]["ty"] == src_t]
+            if len(loc) == 1:
+                return self.apply(e, loc[0]["path"], args, depth) if False else ("app", loc[0]["path"], tuple(args))
+            return ("app", "<%s as std::convert::From<%s>>::from" % (dst_t, src_t), tuple(args))
         if callee.endswith("convert::Into::into") or callee.endswith("convert::From::from"):
             # generic, unresolved
             return ("app", callee, tuple(args))
